@@ -74,12 +74,8 @@ def concerns (n : String) : COp → Bool
 
 /-! ### 3. streams -/
 
-/-- what happens on the wire / to the connection, in the order the tracer gets to see it -/
-inductive WEv
-  | frame (isReq : Bool) (f : Frame)
-  | lost (err : Err)       -- connection ended: failed Read/Write, or Close
-  | timers                 -- retryWait elapsed
-deriving DecidableEq, Repr, Inhabited
+/- `WEv` (what happens on the wire / to the connection, in the order the tracer gets to see it)
+is defined with the model (`Model/H2Conn.lean`). -/
 
 /-- a body as a sequence of enveloped messages (whole-string parse; the last one may be cut) -/
 inductive Msg
@@ -131,6 +127,10 @@ def respMsgsOf (evs : List OEv) : List Msg :=
   evs.filterMap (fun | .respData e l _ => some (Msg.data e l) | .respEos c => some (Msg.eos c) | _ => none)
 def reqIdxOf (evs : List OEv) : List Nat := evs.filterMap (fun | .reqData _ _ i => some i | _ => none)
 def respIdxOf (evs : List OEv) : List Nat := evs.filterMap (fun | .respData _ _ i => some i | _ => none)
+
+def OEv.isRespStart : OEv → Bool
+  | .respStart _ => true
+  | _ => false
 
 /-- how a stream's life ended -/
 inductive Ending
@@ -273,7 +273,7 @@ def traceOK (isServer : Bool) (e : Expect) (t : Obs) : Bool :=
   && t.events.getLast? == some (e.lastEv isServer)
   && t.err == e.ending.err e.id
   && (t.events.contains (OEv.reqEnd .none) == e.reqEnded)
-  && (t.events.any (fun | .respStart _ => true | _ => false) == e.resp.isSome)
+  && (t.events.any OEv.isRespStart == e.resp.isSome)
 
 /-- Is the stream's trace due to have been delivered?  (Not while the stream is open, not
 while it is held back for a retry, never once superseded by a retry.) -/
@@ -283,9 +283,14 @@ def nodupNat : List Nat → Bool
   | [] => true
   | x :: xs => !xs.contains x && nodupNat xs
 
+/-- a request HEADERS frame -/
+def WEv.isReqHeaders : WEv → Bool
+  | .frame true (.headers _ _ _) => true
+  | _ => false
+
 def noOpenAfterGoaway : List WEv → Bool
   | [] => true
-  | .frame _ (.goaway _ _) :: ws => ws.all (fun | .frame true (.headers _ _ _) => false | _ => true)
+  | .frame _ (.goaway _ _) :: ws => ws.all (fun w => !w.isReqHeaders)
   | _ :: ws => noOpenAfterGoaway ws
 
 /-- Well-formed traffic, as far as the property needs it: per-stream order respected (no
@@ -296,5 +301,46 @@ with a retryable error and no flush came before the retry). -/
 def wellFormed (ws : List WEv) : Bool :=
   let es := expects [] ws
   es.all (fun e => !e.odd) && nodupNat (es.map (·.id)) && noOpenAfterGoaway ws
+
+/-- the connection ends with an error of the inner connection or with `Close` (never with a
+stream / connection error of HTTP/2, which only frames produce) -/
+def Err.isLoss : Err → Bool
+  | .io _ => true
+  | .closed _ => true
+  | _ => false
+
+def WEv.lossOK : WEv → Bool
+  | .lost err => err.isLoss
+  | _ => true
+
+def lossesOK (ws : List WEv) : Bool := ws.all WEv.lossOK
+
+/-- the bytes of one direction, over all calls -/
+def readBytes : List Call → Bytes
+  | [] => []
+  | .read d _ :: cs => d ++ readBytes cs
+  | _ :: cs => readBytes cs
+def writeBytes : List Call → Bytes
+  | [] => []
+  | .write d _ :: cs => d ++ writeBytes cs
+  | _ :: cs => writeBytes cs
+
+/-- the frames of one direction among the wire events, in order -/
+def dirFrames (isReq : Bool) : List WEv → List Frame
+  | [] => []
+  | .frame r f :: ws => if r = isReq then f :: dirFrames isReq ws else dirFrames isReq ws
+  | _ :: ws => dirFrames isReq ws
+
+/-- **The property's predicate on everything that was delivered**, for well-formed traffic
+whose streams are `es` (= `expects [] ws`): every delivered trace carries the test name of
+some stream, and for every test name the delivered traces are, one for one, the traces
+promised (`traceOK`) for the streams of that name that are due (ended, not held back for a
+retry, not superseded by a retry). -/
+def deliveredOK (isServer : Bool) (es : List Expect) (delivered : List Obs) : Bool :=
+  delivered.all (fun o => o.name != "" && es.any (fun e => e.name == o.name))
+  && es.all (fun e => e.name == "" ||
+      (let due := es.filter (fun x => x.name == e.name && x.due)
+       let got := delivered.filter (fun o => o.name == e.name)
+       got.length == due.length && (due.zip got).all (fun p => traceOK isServer p.1 p.2)))
 
 end ConfModel.H2
